@@ -8,6 +8,8 @@ CONSTANTS
   GeCmp = TRUE
   AwaitStop = TRUE
   NotifyPop = TRUE
+  ReleaseOnEnd = TRUE
+  Faults = TRUE
   MaxOps = 7
   MaxCancel = 2
   Depth = 0
